@@ -205,12 +205,7 @@ func TypeBindingClauseHook(t StatementType) ClauseHook {
 // dataAccumulator creates a element hook that tracks fully formed triples and
 // adds them to the Statement when fully formed.
 func dataAccumulator(b literal.Builder) ElementHook {
-	var (
-		hook ElementHook
-		s    *node.Node
-		p    *predicate.Predicate
-		o    *triple.Object
-	)
+	var hook ElementHook
 
 	hook = func(st *Statement, ce ConsumedElement) (ElementHook, error) {
 		if ce.IsSymbol() {
@@ -220,6 +215,12 @@ func dataAccumulator(b literal.Builder) ElementHook {
 		if tkn.Type != lexer.ItemNode && tkn.Type != lexer.ItemPredicate && tkn.Type != lexer.ItemLiteral {
 			return hook, nil
 		}
+		// The partially built triple lives in the statement, so it cannot leak
+		// into the next statement parsed with the same grammar.
+		s, p, o := st.hooks.dataS, st.hooks.dataP, st.hooks.dataO
+		defer func() {
+			st.hooks.dataS, st.hooks.dataP, st.hooks.dataO = s, p, o
+		}()
 		if s == nil {
 			if tkn.Type != lexer.ItemNode {
 				return nil, fmt.Errorf("hook.DataAccumulator requires a node to create a subject, got %v instead", tkn)
@@ -352,15 +353,18 @@ func whereInitWorkingClause() ClauseHook {
 // whereSubjectClause returns an element hook that updates the subject
 // modifiers on the working graph clause.
 func whereSubjectClause() ElementHook {
-	var (
-		hook         ElementHook
-		lastNopToken *lexer.Token
-	)
+	var hook ElementHook
 	hook = func(st *Statement, ce ConsumedElement) (ElementHook, error) {
 		if ce.IsSymbol() {
 			return hook, nil
 		}
 		tkn := ce.Token()
+		// Kept in the statement so it cannot leak into the next statement parsed
+		// with the same grammar.
+		lastNopToken := st.hooks.lastNopSubject
+		defer func() {
+			st.hooks.lastNopSubject = lastNopToken
+		}()
 		c := st.WorkingClause()
 		switch tkn.Type {
 		case lexer.ItemLBracket:
@@ -507,15 +511,18 @@ func processPredicateBound(ce ConsumedElement) (string, string, string, *time.Ti
 // wherePredicateClause returns an element hook that updates the predicate
 // modifiers on the working graph clause.
 func wherePredicateClause() ElementHook {
-	var (
-		hook         ElementHook
-		lastNopToken *lexer.Token
-	)
+	var hook ElementHook
 	hook = func(st *Statement, ce ConsumedElement) (ElementHook, error) {
 		if ce.IsSymbol() {
 			return hook, nil
 		}
 		tkn := ce.Token()
+		// Kept in the statement so it cannot leak into the next statement parsed
+		// with the same grammar.
+		lastNopToken := st.hooks.lastNopPredicate
+		defer func() {
+			st.hooks.lastNopPredicate = lastNopToken
+		}()
 		c := st.WorkingClause()
 		switch tkn.Type {
 		case lexer.ItemPredicate:
@@ -579,15 +586,18 @@ func wherePredicateClause() ElementHook {
 // whereObjectClause returns an element hook that updates the object
 // modifiers on the working graph clause.
 func whereObjectClause() ElementHook {
-	var (
-		hook         ElementHook
-		lastNopToken *lexer.Token
-	)
+	var hook ElementHook
 	hook = func(st *Statement, ce ConsumedElement) (ElementHook, error) {
 		if ce.IsSymbol() {
 			return hook, nil
 		}
 		tkn := ce.Token()
+		// Kept in the statement so it cannot leak into the next statement parsed
+		// with the same grammar.
+		lastNopToken := st.hooks.lastNopObject
+		defer func() {
+			st.hooks.lastNopObject = lastNopToken
+		}()
 		c := st.WorkingClause()
 		switch tkn.Type {
 		case lexer.ItemNode, lexer.ItemLiteral:
@@ -783,15 +793,18 @@ func whereFilterClause() ElementHook {
 // varAccumulator returns an element hook that updates the object
 // modifiers on the working graph clause.
 func varAccumulator() ElementHook {
-	var (
-		hook         ElementHook
-		lastNopToken *lexer.Token
-	)
+	var hook ElementHook
 	hook = func(st *Statement, ce ConsumedElement) (ElementHook, error) {
 		if ce.IsSymbol() {
 			return hook, nil
 		}
 		tkn := ce.Token()
+		// Kept in the statement so it cannot leak into the next statement parsed
+		// with the same grammar.
+		lastNopToken := st.hooks.lastNopVar
+		defer func() {
+			st.hooks.lastNopVar = lastNopToken
+		}()
 		p := st.WorkingProjection()
 		switch tkn.Type {
 		case lexer.ItemBinding:
@@ -1023,16 +1036,18 @@ func limitCollection() ElementHook {
 // collectGlobalBounds collects the global time bounds that should be applied
 // to all temporal predicates.
 func collectGlobalBounds() ElementHook {
-	var (
-		hook      ElementHook
-		opToken   *lexer.Token
-		lastToken *lexer.Token
-	)
+	var hook ElementHook
 	hook = func(st *Statement, ce ConsumedElement) (ElementHook, error) {
 		if ce.IsSymbol() {
 			return hook, nil
 		}
 		tkn := ce.token
+		// Kept in the statement so it cannot leak into the next statement parsed
+		// with the same grammar.
+		opToken, lastToken := st.hooks.boundsOp, st.hooks.boundsLast
+		defer func() {
+			st.hooks.boundsOp, st.hooks.boundsLast = opToken, lastToken
+		}()
 		switch tkn.Type {
 		case lexer.ItemBefore, lexer.ItemAfter, lexer.ItemBetween:
 			if lastToken != nil {
